@@ -338,12 +338,30 @@ func multiSplit(value string, seps ...string) []string {
 }
 
 func recursiveCheck(value []string, funcs []func(string) bool) bool {
-	for i := 0; i < len(value); i++ {
-		tempVal := strings.Join(value[:i+1], " ")
+	// failed[i] records that value[i:] cannot be split into components accepted
+	// by funcs. Without it the same suffix is checked again for every way of
+	// splitting what precedes it, which is exponential in len(value).
+	failed := make([]bool, len(value)+1)
+	return recursiveCheckFrom(value, funcs, 0, failed)
+}
+
+func recursiveCheckFrom(value []string, funcs []func(string) bool, start int, failed []bool) bool {
+	for i := start; i < len(value); i++ {
+		tempVal := strings.Join(value[start:i+1], " ")
 		for _, j := range funcs {
-			if j(tempVal) && (len(value[i+1:]) == 0 || recursiveCheck(value[i+1:], funcs)) {
+			if !j(tempVal) {
+				continue
+			}
+			if i+1 == len(value) {
 				return true
 			}
+			if failed[i+1] {
+				continue
+			}
+			if recursiveCheckFrom(value, funcs, i+1, failed) {
+				return true
+			}
+			failed[i+1] = true
 		}
 	}
 	return false
